@@ -61,6 +61,10 @@ class _Continue(Exception):
     pass
 
 
+class LoopBodyDone(Exception):
+    """mode A of the loop rule: the arbitrary iteration has been checked; the path ends here"""
+
+
 # ---------------------------------------------------------------------------------------------
 # model objects
 # ---------------------------------------------------------------------------------------------
@@ -94,6 +98,7 @@ class MDict:
         self.ci = ci
         self.factory = factory
         self.entries = [list(e) for e in (entries or [])]
+        self.tail = None      # None, or dict(items=AbsColl, keys=AbsColl, values=AbsColl, absent=(keys known absent))
 
     def __repr__(self):
         return f"MDict<{self.pycls.__name__}>({self.entries!r})"
@@ -236,6 +241,9 @@ class Interp:
         self.E = None                 # harness API, set by the verifier
         self.call_log = []            # (qualname, args) of modular calls, for evidence / debugging
         self.in_target = 0
+        self.loop_specs = {}          # (qualname, ordinal) -> LoopSpec
+        self.loop_mode = None         # None (skip loops by their contract) or (qualname, ordinal, elem_case)
+        self.loop_mode_used = False
 
     # -- function calls ------------------------------------------------------------------------
     def call_function(self, fn, args, kwargs, bound_self=None):
@@ -443,8 +451,67 @@ class Interp:
         else:
             self.exec_block(st.orelse, frame)
 
+    def _loop_ordinal(self, st):
+        fn = st
+        while not isinstance(fn, (ast.FunctionDef, ast.Module)):
+            fn = fn._parent
+        table = getattr(fn, "_loop_ord", None)
+        if table is None:
+            table = {}
+            n = 0
+
+            def visit(node):
+                nonlocal n
+                for ch in ast.iter_child_nodes(node):
+                    if isinstance(ch, (ast.For, ast.While)):
+                        n += 1
+                        table[id(ch)] = n
+                    visit(ch)
+            visit(fn)
+            fn._loop_ord = table
+        return table[id(st)]
+
+    def abstract_loop(self, st, frame, coll, spec, key):
+        E, ctx = self.E, self.ctx
+        tag = f"loop{key[1]}"
+        for name, c in spec.inv(E, frame.locals):
+            ctx.require(f"{tag}:init:{name}", c)
+        mode = self.loop_mode
+        if mode is not None and (mode[0], mode[1]) == key and not self.loop_mode_used:
+            self.loop_mode_used = True
+            case = mode[2]
+            frame.locals.update(spec.carried(E, frame.locals, coll))
+            for name, c in spec.inv(E, frame.locals):
+                ctx.assume(c)
+            elem = spec.element(E, case, coll)
+            for fact in getattr(coll, "facts", []):
+                ctx.assume(fact(elem))
+            pre = {k: (list(v) if isinstance(v, list) else v) for k, v in frame.locals.items()}
+            self.assign(st.target, elem, frame)
+            try:
+                self.exec_block(st.body, frame)
+            except _Continue:
+                pass
+            except _Break:
+                raise OutOfReach("break inside a loop verified by the arbitrary-iteration rule")
+            for name, c in spec.inv(E, frame.locals):
+                ctx.require(f"{tag}:preserve:{name}", c)
+            for name, c in spec.step(E, pre, frame.locals, elem, case):
+                ctx.require(f"{tag}:step[{case}]:{name}", c)
+            raise LoopBodyDone()
+        frame.locals.update(spec.carried(E, frame.locals, coll))
+        for name, c in spec.inv(E, frame.locals):
+            ctx.assume(c)
+        spec.after(E, frame.locals, coll)
+        self.exec_block(st.orelse, frame)
+
     def x_For(self, st, frame):
         it = self.eval(st.iter, frame)
+        if self.loop_specs:
+            key = (frame.qualname, self._loop_ordinal(st))
+            spec = self.loop_specs.get(key)
+            if spec is not None and spec.applies(it):
+                return self.abstract_loop(st, frame, it, spec, key)
         broke = False
         for x in self.iterate(it):
             self.assign(st.target, x, frame)
